@@ -9,6 +9,7 @@ pids = sys.argv[2:] or [sys.argv[1].split("-")[0]]
 assert subprocess.run(["git", "-C", "/repo", "status", "--porcelain"], capture_output=True, text=True).stdout.strip() == "", "/repo not clean"
 subprocess.run(["git", "-C", "/repo", "apply", str(d / "patch.diff")], check=True)
 res = {}
+saved = {p: (V / "evidence" / f"{p}.json").read_text() for p in pids if (V / "evidence" / f"{p}.json").exists()}
 try:
     for p in pids:
         r = subprocess.run([str(V / "bin" / "check"), p, "--tier", "quick"], capture_output=True, text=True, cwd=V)
@@ -23,6 +24,8 @@ try:
         res[p] = {"exit": r.returncode, "violations": len(vio), "examples": whats}
 finally:
     subprocess.run(["git", "-C", "/repo", "checkout", "--", "."], check=True)
+    for p, t in saved.items():       # evidence written against a patched tree is not evidence
+        (V / "evidence" / f"{p}.json").write_text(t)
 meta_p = d / "meta.json"
 meta = json.loads(meta_p.read_text()) if meta_p.exists() else {}
 meta.setdefault("property", sys.argv[1].split("-")[0])
